@@ -12,6 +12,9 @@ CLAIMS = {
  "C02": dict(units="src/rtosc.c, src/cpp/arg-val*.c",
              text="Capacity is a symbolic variable 0..needed+8 inside each query (message shape concrete, values symbolic): return value, zero-fill on failure, exact bytes on success, and no byte at or beyond buffer+len modified (shadow copy + cbmc bounds checks on an object 8 bytes larger). rtosc_bundle with 0..2 (3) elements likewise.",
              note="C++ call sites (ThreadLink::write, RtData::reply) are exercised only as far as the C06/C14 harnesses reach them", ref="4/C02"),
+ "C03": dict(units="the units of the host harnesses: src/rtosc.c, src/dispatch.c, src/cpp/arg-val*.c (direct), src/cpp/thread-link.cpp, port-sugar.h callbacks + ports.cpp metadata code (via IR)",
+             text="Reachability of an allocator or lock is an assertion like any other: the stubs for malloc/calloc/realloc/free/pthread_mutex_lock and operator new/delete (incl. new[]) assert that the realtime-section flag is clear; the harnesses of C01 (build/measure/read, incl. 17/18-value varargs messages), C05 (matching), C06 (ThreadLink write/read/hasNext after construction), C07, C08 and C14 (parameter-port callbacks with recording reply/broadcast) raise the flag around every library call. The solver covers every path of the encoded functions for every input within the host harness bounds, including non-matching, oversized and rejected messages.",
+             note="dispatch through port TREES (Ports::dispatch, default handlers, location tracking, hashed tables) is NOT covered: port tables could not be constructed under cbmc; RtData's default 8 KiB reply/broadcast forwarding is not covered; libc internals are stubs", ref="4/C03"),
  "C05": dict(units="src/dispatch.c (+ rtosc_argument_string of src/rtosc.c)",
              text="Per concrete pattern generated from the documented grammar (literal, #N, {a,b}, multi-component, trailing '/', ':types' incl. empty alternative) one SAT query covers EVERY address byte string up to the per-pattern bound, every type string of 0..3 bytes and arbitrary following bytes, against a reference matcher written from doc/Guide.adoc; plus a unit contract check of rtosc_match_options.",
              note="atoi is an environment model (stubs/atoi_model.c); alternatives prefix-free; patterns with two {..} groups only in the thorough tier; '*' patterns outside", ref="4/C05"),
@@ -24,6 +27,9 @@ CLAIMS = {
  "C08": dict(units="src/rtosc.c",
              text="Per concrete bundle shape (0..3 (4) elements; int/string messages, empty, singly and doubly nested bundles) one query covers all 64-bit time tags and payloads, with the destination pre-filled with stale bytes and exact or spare capacity: recognised as bundle, element count, each element byte-identical with exact size, time tag, total length == length function; a message is never a bundle.",
              note="append_bundle of subtree-serialize.cpp not encoded", ref="4/C08"),
+ "C14": dict(units="include/rtosc/port-sugar.h callbacks (real macros, instantiated in the harness TU) + src/cpp/ports.cpp metadata code via IR; src/rtosc.c, src/dispatch.c",
+             text="Per port kind (rParamI [-5,5], rParam char [0,127], rParamF [-3.5,20.25], rToggle, rOption with integer argument, rString(4)) and per query/set, one SAT query covers every incoming value of the storage type and every stored state: clamp, reply on query without state change, broadcast of the new value at the port address, exactly one /undo_change with address, true old and new value iff the value changed, nothing else modified. The callback is invoked directly with d.loc/d.port/d.obj set as dispatch sets them; a recording RtData encodes variadic replies with the real rtosc_vmessage.",
+             note="array forms, option symbols, unbounded rParamI and the toggle query are in the harness but excluded (queries do not finish / unmodelled libc path); atoi/atof/strtol/strtod are environment models", ref="4/C14"),
  "C16": dict(units="src/cpp/arg-val-cmp.c, arg-val-itr.c, arg-val-math.c, arg-val.c, arg-ext.c (one TU lowered via IR), src/rtosc.c",
              text="Per concrete list shape (types, array lengths, run lengths) one query covers all values: reflexive, antisymmetric, transitive, cmp==0 iff eq, semantic order per type; compression invariance of eq/cmp/iteration/message bytes for constant and integer-delta runs, incl. two compressed lists against each other and lists of different length.",
              note="no NaN; non-NULL strings; default cmp options; runs of strings excluded; infinite ranges excluded", ref="4/C16"),
@@ -38,6 +44,12 @@ CLAIMS = {
              note="createBinding/setSlotSubPath (port lookup, atof) not encoded; log scale outside; NRPN outside; roundf model", ref="4/C19"),
 }
 NA = {
+ "C04": "needs a constructed port table: the Ports constructor (std::initializer_list -> std::vector<Port> copy, std::function clone, std::string keys, perfect-hash search) does not get through cbmc's symbolic execution within the budget, even for 3 ports and a concrete message (measured: no result in 200 s at unwind 5); the planned object-image fallback was not built. The per-level matching that dispatch relies on is decided under C05; callbacks under C14.",
+ "C09": "walk_ports/port_is_enabled need constructed port trees (same obstacle as C04) plus snprintf formatting and Capture/std::vector scratch buffers of get_value_from_runtime; not encodable within reach",
+ "C10": "pretty-format.c is a client of snprintf/sscanf/strftime in full generality (%a/%f/%n/%[ directives, float formatting); no validated bounded model of those directives was built, so neither the round trip nor the checker/scanner agreement can be decided by symbolic execution here",
+ "C11": "same obstacle as C10: the scanner is driven by sscanf directive semantics that cbmc does not model and that were not modelled by hand in the available time",
+ "C15": "UndoHistory keeps its events in a std::deque and allocates every event with new char[len] where len is computed at run time; with the pool allocator stub a symbolic allocation size makes every later address symbolic and the libstdc++ deque code does not finish; no check was built",
+ "C20": "the histories of the statement run through MidiMappernRT (std::map<std::string,...>, std::deque, heap lambdas capturing std::string) which is heap-shaped and not encodable within reach; the realtime half alone (MidiMapperStorage::handleCC) was not built in the available time",
  "C12": "end-to-end save/load pipeline over libc formatting (snprintf/sscanf in full generality) and data-shaped heap containers (std::map/std::set/std::vector<std::string>); no bounded symbolic encoding of that pipeline is within reach of cbmc here; its building blocks are decided under C01/C09/C10/C14/C16/C18",
  "C13": "dependency discovery (scan_deps) and the topological sort are local to dispatch_printed_messages and std::map/std::string-bound; they cannot be driven without the whole load pipeline of C12",
 }
